@@ -87,6 +87,13 @@ def ilv_cases(tier, rng):
     for k in (0, 1):
         for sched in itertools.product(range(3), repeat=steps):
             out.append(("ILV %d %s %s" % (k, ",".join(map(str, sched)), " ".join(tok(r) for r in trio)), "all-interleavings"))
+    # many requests in flight at once from one shared client on one thread (9, 12, 17, 24, 40): each is polled once before any is
+    # polled again, in rotating order; each still gets the outcome it would get alone
+    for m in (9, 12, 17, 24, 40):
+        for k in (1, 2):
+            rs = [pool[(j * 3 + m) % len(pool)] for j in range(m)]
+            sched = [(j + r) % m for r in range(k + 2) for j in range(m)]
+            out.append(("ILV %d %s %s" % (k, ",".join(map(str, sched)), " ".join(tok(r) for r in rs)), "many-in-flight"))
     n = 300 if tier == "quick" else 5000
     for _ in range(n):
         m = rng.randint(2, 4)
